@@ -1,0 +1,10 @@
+//go:build !verif
+
+package packets
+
+import "net/netip"
+
+// verifSourceSink is the verification seam; without the `verif` build tag it is a constant no-op.
+func verifSourceSink(_ netip.Addr, _ bool) (SourceSinkHandle, bool, error) {
+	return SourceSinkHandle{}, false, nil
+}
